@@ -13,3 +13,21 @@ func (f *idleFlag) Set(b bool) {
 
 // Get reports whether the controller is idle.
 func (f *idleFlag) Get() bool { return atomic.LoadInt32(&f.v) == 1 }
+
+// HookQuiet adds delta to the quiet level of the running task and returns
+// the new level. While it is positive the statement-granular yields of the
+// instrumented copy ("a:"/"g:" sites) are suppressed for that task: the copy
+// raises it around loops over Go maps, whose order is random.
+//
+//go:norace
+func HookQuiet(delta int) int {
+	t := Current()
+	if t == nil {
+		return 0
+	}
+	t.quiet += delta
+	if t.quiet < 0 {
+		t.quiet = 0
+	}
+	return t.quiet
+}
